@@ -1,8 +1,8 @@
 (* C03 — a Runtime stays consistent and reusable after every kind of abrupt outcome.
    ONLY theorem statements; each is closed by [exact] of a lemma of C03/Proofs.v.
-   Model: C03/Model.v.  [fixed = true] is goja's bookkeeping algorithm as on the current tree (the findings F16, F17, F21,
-   F22 are repaired in /repo); [fixed = false] is the algorithm before the repairs of F16/F21/F22: wherever it deviates
-   the ghost field [leaked] grows (ids 16, 21, 22).
+   Model: C03/Model.v.  [fixed = false] is goja's bookkeeping algorithm as on the current tree (the former findings F16,
+   F17, F21, F22, F12 are repaired in /repo and in the model); [fixed = true] additionally repairs the open finding F23:
+   wherever the two differ the ghost field [leaked] grows (id 23).
    An execution tree is a [node] (19 kinds: run-loop items and native actions); [api] is one outermost API call;
    [exec]/[api_exec] take fuel, [RStuck]/[OStuck] = out of fuel or an ill-formed tree (a native action among run-loop
    items or vice versa). *)
@@ -22,7 +22,7 @@ Theorem idle_restored_partial : forall lim faults fixed fuel a st,
   idle_regs (fst (api_exec lim faults fixed fuel a st)) = true.
 Proof. exact Proofs.idle_restored_partial. Qed.
 
-(* 2. idle_restored — the repaired algorithm needs no guard. *)
+(* 2. idle_restored — the repaired algorithm needs no guard (on the current tree the guard of 1 excludes exactly F23). *)
 Theorem idle_restored : forall lim faults fuel a st,
   idle_regs st = true ->
   snd (api_exec lim faults true fuel a st) <> RStuck ->
@@ -30,20 +30,22 @@ Theorem idle_restored : forall lim faults fuel a st,
 Proof. exact Proofs.idle_restored. Qed.
 
 (* 2b. ... and after an outermost RunProgram / Callable the job queue is empty as well (drained by leave, dropped by
-      leaveAbrupt or by the foreign-panic exit), whatever the outcome. *)
-Theorem idle_restored_jobs : forall lim faults fuel body st,
+      leaveAbrupt or by the foreign-panic exit), whatever the outcome (same guard as 1). *)
+Theorem idle_restored_jobs : forall lim faults fixed fuel body st,
   idle_regs st = true ->
-  (snd (api_exec lim faults true fuel (ARun body) st) <> RStuck ->
-   idle_regs (fst (api_exec lim faults true fuel (ARun body) st)) = true /\
-   jq (fst (api_exec lim faults true fuel (ARun body) st)) = []) /\
-  (snd (api_exec lim faults true fuel (ACall body) st) <> RStuck ->
-   idle_regs (fst (api_exec lim faults true fuel (ACall body) st)) = true /\
-   jq (fst (api_exec lim faults true fuel (ACall body) st)) = []).
+  (snd (api_exec lim faults fixed fuel (ARun body) st) <> RStuck ->
+   no_new_deviation fixed st (fst (api_exec lim faults fixed fuel (ARun body) st)) ->
+   idle_regs (fst (api_exec lim faults fixed fuel (ARun body) st)) = true /\
+   jq (fst (api_exec lim faults fixed fuel (ARun body) st)) = []) /\
+  (snd (api_exec lim faults fixed fuel (ACall body) st) <> RStuck ->
+   no_new_deviation fixed st (fst (api_exec lim faults fixed fuel (ACall body) st)) ->
+   idle_regs (fst (api_exec lim faults fixed fuel (ACall body) st)) = true /\
+   jq (fst (api_exec lim faults fixed fuel (ACall body) st)) = []).
 Proof. exact Proofs.idle_restored_jobs. Qed.
 
 Example idle_restored_nonvacuous :
   (* limit 7, a JS exception at the 3rd probe inside a for-of inside try inside a native callback inside a getter *)
-  let a := ACall [Getter [Native [NCallable true [Try [ForOf 1 [Probe] 2 [Scope [Probe; RefCall [Probe]]]] [Effect 1] [Rec] true true]]]; Probe] in
+  let a := ACall [Getter [Native [NCallable true [Try [ForOf 1 [Probe] 2 [Scope [Probe; RefCall [Probe]]] None] [Effect 1] [Rec] true true]]]; Probe] in
   let r := api_exec (Some 7%nat) [(2%nat, FThrow)] false 40 a init in
   snd r = RError PSO /\ leaked (fst r) = [] /\ idle_regs (fst r) = true /\ log (fst r) = [1001%nat; 1%nat].
 Proof. vm_compute. auto. Qed.
@@ -91,8 +93,8 @@ Proof. exact Proofs.next_run_equivalent. Qed.
 (* 6. The snapshot/restore lemma of handleThrow, for EVERY state: a frame tf whose snapshot was taken at s0, ANY later
       state s that piled contexts xs, iterator records ys, k references on s0's stacks, any frames [above] that the
       payload skips; unwinding lands exactly on s0's stacks, scope and sp (+1 for the caught value); prg/sb/args are
-      those saved by the lowest piled context; a JS exception closes exactly the dropped iterators, an uncatchable
-      payload closes none (F12 repaired). *)
+      those saved by the lowest piled context.  (This is the pure part: frame search, register restore, truncation;
+      restoreStacks' walk over the dropped iterator records is theorem 6b.) *)
 Theorem handleThrow_restores : forall p tf s0 above below s xs ys k,
   snap_of tf s0 -> skippable p tf = false -> forallb (skippable p) above = true ->
   ts s = above ++ tf :: below -> extends s0 s xs ys k ->
@@ -102,7 +104,7 @@ Theorem handleThrow_restores : forall p tf s0 above below s xs ys k,
   sp s' = (if negb (t_marker tf) && t_catch tf then sp s0 + 1 else sp s0) /\
   (prg s', sb s', args s') = bottom_regs xs s /\
   ts s' = flagged tf :: below /\
-  log s' = (if catchable p then log s ++ map close_ev ys else log s) /\
+  log s' = log s /\
   leaked s' = leaked s /\ jq s' = jq s /\ intr s' = intr s /\ pcount s' = pcount s /\ trace s' = trace s /\
   snd r = (if t_marker tf then OUnwound p
            else if t_catch tf then OCaught (length below) HCatch p else OCaught (length below) HFin p).
@@ -110,9 +112,46 @@ Proof. exact Proofs.handleThrow_restores. Qed.
 
 Example handleThrow_restores_nonvacuous :
   let s0 := set_sp 4 (set_stash 1 init) in
-  let s := set_its [7%nat] (set_cs [mkCtx true 0 5 0; mkCtx false 0 (-1) 0] (set_sp 9 (push_try false true false s0))) in
-  regs (fst (handle_throw PCatch s)) = regs (set_sp 5 (set_ts [mkTf 0 0 0 4 1 false false false] s0))
-  /\ log (fst (handle_throw PCatch s)) = [1007%nat] /\ log (fst (handle_throw PSO s)) = [].
+  let s := set_its [(7%nat, None)] (set_cs [mkCtx true 0 5 0; mkCtx false 0 (-1) 0] (set_sp 9 (push_try false true false s0))) in
+  regs (fst (handle_throw PCatch s)) = regs (set_sp 5 (set_ts [mkTf 0 0 0 4 1 false false false] s0)).
+Proof. vm_compute. auto. Qed.
+
+(* 6b. handleThrow with restoreStacks' walk ([raise]), for EVERY tree run by the return() methods: for a JS exception
+      whose target frame is tf, (i) the walk starts with the iterator stack untouched (its sm = its s): whatever a
+      return() call iterates is pushed ABOVE the tail being walked; (ii) [raise] is the walk followed by the pure
+      handleThrow (or, when an uncatchable panic leaves a return() call, by the handling of that panic); (iii) if no
+      deviation occurs, every return() call that comes back has restored every register and stack, and only THEN are the
+      iterator and reference stacks cut to the frame's snapshot.  Native return() methods close in stack order, each
+      dropped record exactly once, the outermost last. *)
+Theorem raise_closes_then_truncates : forall lim faults fixed fuel inrec p s tf rest,
+  catchable p = true -> target p (ts s) = Some (tf, rest) ->
+  let sm := set_ts (tf :: rest) (restore_regs tf s) in
+  let dropped := firstn (length (its s) - t_iter tf) (its s) in
+  let r := close_items lim (exec lim faults fixed fuel) dropped sm in
+  its sm = its s /\
+  raise lim fixed (exec lim faults fixed fuel) inrec p s =
+    match r with
+    | (s1, ONorm) => handle_throw p s1
+    | (s1, OPanic p') => if inrec && negb fixed then (deviate 23 s1, OEscaped p') else handle_throw p' (with_regs_of s s1)
+    | (s1, _) => (s1, OStuck)
+    end /\
+  (snd r = ONorm -> dv (fst r) = dv s ->
+     regs (fst r) = regs sm /\
+     its (fst (handle_throw p (fst r))) = low (t_iter tf) (its s) /\
+     refs (fst (handle_throw p (fst r))) = Nat.min (t_ref tf) (refs s)).
+Proof. exact Proofs.raise_closes_then_truncates. Qed.
+
+Theorem close_items_native_log : forall lim ex items s,
+  Forall (fun it : irec => snd it = None) items ->
+  close_items lim ex items s = (set_log (log s ++ map (fun it => close_ev (fst it)) items) s, ONorm).
+Proof. exact Proofs.close_items_native_log. Qed.
+
+Example raise_closes_nonvacuous :
+  (* try { for (a of outer) for (b of inner) throw } catch {}: inner.return() itself runs a for-of; closes: inner, outer *)
+  let t := ARun [Try [ForOf 1 [] 2 [ForOf 2 [] 2 [Probe; Throw] (Some [ForOf 3 [] 1 [Probe] None; Effect 1002])] (Some [Effect 1001])] [Effect 5] [] true false] in
+  let r := api_exec None [] false 40 t init in
+  snd r = RNormal /\ log (fst r) = [1002%nat; 1001%nat; 5%nat] /\ idle_full (fst r) = true /\
+  map (fun x => match x with (_, _, _, _, _, _, n, _, _) => n end) (rev (trace (fst r))) = [2%nat; 3%nat].
 Proof. vm_compute. auto. Qed.
 
 Theorem handleThrow_idem : forall p tf s0 above below s xs ys k,
@@ -120,7 +159,7 @@ Theorem handleThrow_idem : forall p tf s0 above below s xs ys k,
   ts s = above ++ tf :: below -> extends s0 s xs ys k ->
   let s1 := fst (handle_throw p s) in
   regs (fst (handle_throw p s1)) = regs s1 /\ snd (handle_throw p s1) = snd (handle_throw p s) /\
-  log (fst (handle_throw p s1)) = (if catchable p then log s1 ++ [] else log s1).
+  log (fst (handle_throw p s1)) = log s1.
 Proof. exact Proofs.handleThrow_idem. Qed.
 
 Theorem uncatchable_never_caught : forall p s, catchable p = false -> snd (handle_throw p s) = OUnwound p.
@@ -129,15 +168,20 @@ Proof. exact Proofs.uncatchable_never_caught. Qed.
 Theorem handleThrow_shrinks : forall p s, (length (ts (fst (handle_throw p s))) <= length (ts s))%nat.
 Proof. exact Proofs.handleThrow_shrinks. Qed.
 
-(* 7. The former findings F16 (195c9cc), F17 (60d9770), F21 (82237e3), F22 (7d68b51) are repaired in /repo; the model
-      the correspondence check uses is the repaired algorithm ([fixed = true], theorem 2 applies without a guard), and
-      the former witnesses are idle.  ([fixed = false] keeps the pre-repair algorithm for the record; theorem 1 covers
-      it outside the regions where it deviated.) *)
+(* 7. The former findings F16 (195c9cc), F17 (60d9770), F21 (82237e3), F22 (7d68b51) are repaired in /repo: their
+      witnesses are idle under the current algorithm.  The guard of 1 is needed for the open finding F23, exhibited by
+      the faithful model (and replayed on the implementation by the correspondence check). *)
 Theorem former_findings_repaired :
-  idle_after None [(0%nat, FIntr)] w16 = true /\ idle_after (Some 3%nat) [] w16b = true /\
-  idle_after None [(0%nat, FIntr)] w16c = true /\ idle_after (Some 0%nat) [] w17 = true /\
-  idle_after (Some 2%nat) [] w21 = true /\ idle_after None [(0%nat, FGo)] w22 = true.
+  idle_after None [(0%nat, FIntr)] false w16 = true /\ idle_after (Some 3%nat) [] false w16b = true /\
+  idle_after None [(0%nat, FIntr)] false w16c = true /\ idle_after (Some 0%nat) [] false w17 = true /\
+  idle_after (Some 2%nat) [] false w21 = true /\ idle_after None [(0%nat, FGo)] false w22 = true.
 Proof. exact Proofs.former_findings_repaired. Qed.
+
+Theorem idle_refuted_F23 :
+  idle_after None [(0%nat, FThrow); (1%nat, FIntr)] false w23 = false /\
+  idle_after None [(0%nat, FThrow); (1%nat, FIntr)] true w23 = true /\
+  deviations None [(0%nat, FThrow); (1%nat, FIntr)] w23 = [23%nat].
+Proof. exact Proofs.idle_refuted_F23. Qed.
 
 Print Assumptions idle_restored_partial.
 Print Assumptions idle_restored.
@@ -146,7 +190,10 @@ Print Assumptions history_idle.
 Print Assumptions nested_entry_restored.
 Print Assumptions next_run_equivalent.
 Print Assumptions handleThrow_restores.
+Print Assumptions raise_closes_then_truncates.
+Print Assumptions close_items_native_log.
 Print Assumptions handleThrow_idem.
 Print Assumptions uncatchable_never_caught.
 Print Assumptions handleThrow_shrinks.
 Print Assumptions former_findings_repaired.
+Print Assumptions idle_refuted_F23.
